@@ -367,8 +367,9 @@ pub(crate) mod verif_u3 {
     /// sent symbolic (0..10 s); instance: input-retry timer due or not. After the call the endpoint's
     /// newest transmission is at most KEEP_ALIVE_INTERVAL (200 ms) old: a KeepAlive (own magic) goes out
     /// iff nothing was sent for strictly more than 200 ms, otherwise nothing is queued; no event is
-    /// raised (silence timers: u_poll_*_timer). The quality-report-due case is outside (two possible
-    /// pushes make the queue position symbolic: solver out of memory at 14 GB). Stub: millis_since_epoch.
+    /// raised (silence timers: u_poll_*_timer). The quality-report-due case is its own instance
+    /// (u_poll_quality_stands_in_for_keep_alive): both timers symbolic in one query make the queue position
+    /// symbolic (solver out of memory at 14 GB). Stub: millis_since_epoch.
     macro_rules! keep_alive_case {
         ($name:ident, $s_input:expr) => {
             #[kani::proof]
@@ -409,6 +410,36 @@ pub(crate) mod verif_u3 {
     }
     keep_alive_case!(u_poll_keep_alive_bound, 0u64);
     keep_alive_case!(u_poll_keep_alive_bound_retry_due, 5000u64);
+
+    /// poll() in which the quality report IS due (concrete: 5000 ms since the last one), time since the last
+    /// packet sent symbolic (0..10 s): exactly one packet is queued - the QualityReport stands in for the
+    /// keep-alive, no second packet - and the newest transmission is "now". Stub: millis_since_epoch.
+    #[kani::proof]
+    #[kani::unwind(6)]
+    #[kani::stub(crate::network::protocol::millis_since_epoch, stub_millis)]
+    fn u_poll_quality_stands_in_for_keep_alive() {
+        let now = 100_000u64;
+        instant::set_now_ms(now);
+        let mut ep = mk_ep::<CfgRL>(vec![1], 2, 1, 2, true);
+        let s_send = any_ms(10_000);
+        ep.last_send_time = Instant::from_ms(now - s_send);
+        ep.running_last_quality_report = Instant::from_ms(now - 5000);
+        ep.running_last_input_recv = Instant::from_ms(now);
+        ep.last_recv_time = Instant::from_ms(now);
+        ep.disconnect_notify_sent = true;
+        ep.disconnect_event_sent = true;
+        let cs = [ConnectionStatus::default(); 2];
+        {
+            let mut d = ep.poll(&cs);
+            assert!(d.next().is_none());
+            core::mem::forget(d);
+        }
+        assert!(ep.send_queue.len() == 1, "one packet, not two");
+        assert!(matches!(ep.send_queue.front().unwrap().body, MessageBody::QualityReport(_)));
+        assert!(ep.last_send_time.as_ms() == now && ep.running_last_quality_report.as_ms() == now);
+        kani::cover!(s_send > 200, "keep-alive would have been due");
+        core::mem::forget(ep);
+    }
 
     /// After disconnect() (C12 "nothing after Disconnected", C07): poll() on a Disconnected endpoint,
     /// time since the disconnect symbolic (0..20 s), send/recv silence symbolic: no event is raised and no
